@@ -255,13 +255,11 @@ def attrs_roundtrip(c):
     c.ensures("empty-attrs", c.call(hio.unpack_attrs, {}) == {})
 
 
-@contract("C16", "attrs_roundtrip_native", [IO + "pack_attrs", IO + "unpack_attrs"])
+@contract("C16", "attrs_roundtrip_native", [IO + "pack_attrs", IO + "unpack_attrs"], native_only=True,
+          bounded="native sampling: real PyYAML, spacings over eleven orders of magnitude")
 def attrs_roundtrip_native(c):
     """the same round trip through the real PyYAML (conformance of the inverse-pair assumption), on sampled values"""
     n0, w_r, w_g = c.real("index"), c.real("w_red"), c.real("w_green")
-    if c.symbolic:
-        c.ensures("real-yaml-roundtrip", True)
-        return
     vals = np.zeros((2, 2, 2))
     im = data_grid(vals, spacing=0.1, extra_dims={'illumination': ['red', 'green']})
     im = update_metadata(im, medium_index=n0, illum_wavelen={'red': w_r, 'green': w_g}, illum_polarization=(1, 0))
@@ -270,6 +268,14 @@ def attrs_roundtrip_native(c):
           and abs(float(back['illum_wavelen'].sel(illumination='red')) - w_r) < 1e-12
           and abs(float(back['illum_wavelen'].sel(illumination='green')) - w_g) < 1e-12)
     c.ensures("real-yaml-roundtrip", ok)
+    # the pixel spacing written to the image header (TIFF export) is the image's spacing, whatever the unit of length
+    mant, expo = c.real("spacing_mantissa", sample=(1.0, 9.999)), c.int("spacing_exponent", -9, 1)
+    sx = mant * 10.0 ** expo
+    sy = sx * 1.37
+    im2 = data_grid(np.zeros((3, 2)), spacing=(sx, sy), medium_index=n0)
+    head = hio.pack_attrs(im2, do_spacing=True)
+    c.ensures("header-spacing-is-the-images-spacing", len(head['spacing']) == 2 and abs(head['spacing'][0] - sx) <= 1e-9 * sx
+              and abs(head['spacing'][1] - sy) <= 1e-9 * sy)
 
 
 def _load_average(order):
